@@ -700,6 +700,15 @@ MEMO_DECORATORS = ("cached_property", "functools.cached_property", "lru_cache", 
                    "functools.cache")
 
 
+def _is_ns(t):
+    return isinstance(t, tuple) and len(t) == 4 and t[0] == "new" and t[2] == "types.SimpleNamespace"
+
+
+def _ns_key(t):
+    site = t[1]
+    return "%ns:" + ":".join(str(x) for x in site[1:3]) + ":" + "/".join(str(x) for x in site[3:-1]) + "."
+
+
 def memoised(fn):
     """Name of the memoising decorator of a function definition, else None."""
     for d in fn.decorator_list:
@@ -1511,6 +1520,28 @@ class Summariser:
                     ev, term, ret = self.block(stmts + list(rest))
                     events.extend(ev)
                     return events, term, ret
+            if isinstance(st, ast.For) and not st.orelse and isinstance(st.iter, (ast.Name, ast.Attribute, ast.Tuple, ast.List)) \
+                    and st.body and isinstance(st.body[-1], ast.If) and not st.body[-1].orelse and st.body[-1].body and \
+                    isinstance(st.body[-1].body[-1], ast.Break) and \
+                    sum(isinstance(n, (ast.Break, ast.Continue, ast.Return, ast.Yield, ast.YieldFrom))
+                        for b in st.body for n in ast.walk(b)) == 1:
+                # a search loop over a short display that stops at the first hit (`for k, v in TABLE: if test(k): ...;
+                # break`): the items are tried in turn, each in the else branch of the one before
+                probe = []
+                it = self.expr(st.iter, probe)
+                items = self._display_items(it, isinstance(st.iter, ast.List)) if not probe else None
+                if items is not None and 1 <= len(items) <= 4:
+                    hit = st.body[-1]
+                    chain = []
+                    for item in reversed(items):
+                        branch = ast.If(test=hit.test, body=list(hit.body[:-1]) or [ast.copy_location(ast.Pass(), hit)],
+                                        orelse=chain)
+                        ast.copy_location(branch, hit)
+                        branch.end_lineno = getattr(hit, "end_lineno", hit.lineno)
+                        chain = [_Bind(st.target, item, st)] + list(st.body[:-1]) + [branch]
+                    ev, term, ret = self.block(chain + list(rest))
+                    events.extend(ev)
+                    return events, term, ret
             if isinstance(st, (ast.For, ast.While)) and not getattr(st, "_ds_noreturn", False) and \
                     any(isinstance(n, ast.Return) for n in _own_nodes(st.body)):
                 # a loop that can return: the return becomes `value, flag = ..., True; break` (propagated out of
@@ -1681,7 +1712,12 @@ class Summariser:
                 for i, el in enumerate(target.elts):
                     self.assign(el, tget(val, i), events, st)
         elif isinstance(target, ast.Attribute):
-            events.append(AttrStore(self.expr(target.value, events), target.attr, val, st.lineno))
+            obj = self.expr(target.value, events)
+            if _is_ns(obj):
+                self.fields[_ns_key(obj) + target.attr] = val
+                events.append(Store(_ns_key(obj) + target.attr, val, st.lineno, aug))
+            else:
+                events.append(AttrStore(obj, target.attr, val, st.lineno))
         else:
             raise Unsupported(f"assign target {ast.unparse(target)} at {self.module.path}:{st.lineno}")
 
@@ -1703,6 +1739,9 @@ class Summariser:
             elif isinstance(n, ast.Attribute) and isinstance(n.ctx, ast.Store) and isinstance(n.value, ast.Name) and \
                     self.env.get(n.value.id, ("?",))[0] == "owned":
                 fields.add(self.env[n.value.id][1] + n.attr)
+            elif isinstance(n, ast.Attribute) and isinstance(n.ctx, ast.Store) and isinstance(n.value, ast.Name) and \
+                    _is_ns(self.env.get(n.value.id)):
+                fields.add(_ns_key(self.env[n.value.id]) + n.attr)
         return names, fields
 
     def called_self_methods(self, body, seen=None):
@@ -2393,6 +2432,11 @@ class Summariser:
                 if v[1] or root is None or self.prog.find_method(root, e.attr)[1] is not None:
                     raise Unsupported(f"attribute of the owning object at {self.module.path}:{e.lineno} {ast.unparse(e)[:60]}")
                 return self.field(e.attr)
+            if _is_ns(v):
+                key = _ns_key(v) + e.attr
+                if key not in self.fields:
+                    raise Unsupported(f"attribute {e.attr} of a namespace read before it is set at {self.module.path}:{e.lineno}")
+                return assume(self.fields[key], self.facts) if self.facts else self.fields[key]
             names = record_names(v) if v[0] == "tuple" else None
             if names and e.attr not in names:
                 # a property of the immutable record class, read on a record display
@@ -2457,6 +2501,9 @@ class Summariser:
                 elif idx[0] in ("cmp", "not") and set(table) == {True, False} and len(base[1]) == 2 and \
                         all(type(k[1]) is bool for k, _ in base[1]):
                     return gate(idx, table[True], table[False])     # a two-way dispatch on a boolean
+                elif idx[0] == "fn" and idx[1] == "bool" and len(idx[2]) == 1 and set(table) == {True, False} and \
+                        len(base[1]) == 2 and all(type(k[1]) is bool for k, _ in base[1]):
+                    return gate(idx[2][0], table[True], table[False])   # table[bool(x)] is `T if x else F`
             got = self._list_element(base, idx)
             if got is not None:
                 return got
@@ -3474,6 +3521,9 @@ class Summariser:
         conditional choice between such (`cls = A if c else B; cls(...)`)."""
         if recv[0] == "global" and not recv[1].startswith(("?", "builtins.")):
             return self._dotted_call(recv[1], args, kwargs, events, e)
+        if recv[0] == "global" and recv[1].startswith("builtins.") and recv[1][9:] in PURE_BUILTINS and \
+                recv[1][9:] not in ("getattr", "zip", "next", "iter", "len", "bool"):
+            return ("fn", recv[1][9:], tuple(args) + tuple(("kw",) + kv for kv in kwargs))    # a builtin held in a table
         if recv[0] == "closure" and recv[1] in self.prog.closures:
             return self.inline_closure(recv, args, kwargs, events, e)
         if recv[0] == "funcref" and recv[1] in self.prog.funcrefs:
@@ -3598,6 +3648,13 @@ class Summariser:
             res = ("draw", self.site(e), d, args, kwargs, self.loops)
             events.append(Draw(d, args, kwargs, res, line))
             return res
+        if d == "types.SimpleNamespace" and not args and all(k != "**" for k, _ in kwargs):
+            # a fresh attribute bag: what is stored under its attributes is tracked like local state
+            ns = ("new", self.site(e), "types.SimpleNamespace", ())
+            for k, v in kwargs:
+                self.fields[_ns_key(ns) + k] = v
+                events.append(Store(_ns_key(ns) + k, v, line, None))
+            return ns
         if d == "itertools.repeat" and len(args) == 2 and not kwargs:
             lid = self.ids.next()           # repeat(v, n): v for each of range(n)
             return ("comp", "gen", lid, ("fn", "range", (args[1],)), None, args[0], ())
@@ -3877,6 +3934,8 @@ class Summariser:
         if isinstance(node, ast.Name):
             r = self.prog.resolve_name(m, node.id)
             if r is None:
+                if node.id in PURE_BUILTINS or node.id in FRESH_BUILTINS:
+                    return ("global", "builtins." + node.id)
                 return None
             if r[0] == "const":
                 return self._const_term(r[1][0], r[1][1], depth + 1)
